@@ -133,6 +133,11 @@ func coreConcurrent(m map[string]string) error {
 	}
 	sibling := map[int]int{} // index of a case -> index of its sibling
 	for i, n := 0, len(cases); i < n; i++ {
+		// (any split into readers is as good as another: first readers of three nodes are wanted too -
+		// a slice of three nodes has room for a fourth)
+		if nn := len(cases[i].Nodes); nn >= 4 && i%2 == 0 {
+			cases[i].Readers = []int{3, nn - 3}
+		}
 		if sib := siblingOf(cases[i], maxID+1); sib != nil {
 			maxID++
 			sibling[i] = len(cases)
